@@ -242,6 +242,12 @@ func ruleC20(prog *Program, rep *Report) {
 	rulePlanWrite(prog, rep)
 	rulePairwiseLookup(prog, rep, 1, "asm")
 	ruleContextForward(prog, rep)
+	// building a plan (NewPlan and what it calls) runs outside Execute's recover frame: an index panic there escapes
+	build := reachableFuncs(prog, "asm", "NewPlan")
+	if len(build) < 2 {
+		rep.Errorf("E-constidx: asm.NewPlan and its callees not found")
+	}
+	ruleConstIdx(prog, rep, 2, func(rel, fn string) bool { return build[fn] }, "asm")
 	ruleDivGuard(prog, rep, []string{"asm"}, map[string]bool{"asm": true}, 4)
 	// I-scratch: evaluation scratch maps are per iteration
 	rep.Rules = append(rep.Rules, "I-scratch: in package asm a map created outside a loop is not both written (m[k] = ...) and passed to a call inside that loop: the per-element evaluation context must be created in the iteration, or values left by one element are visible to the next")
